@@ -3,6 +3,7 @@ package main
 import (
 	"bufio"
 	"bytes"
+	"errors"
 	"flag"
 	"fmt"
 	"io"
@@ -16,6 +17,7 @@ import (
 	"strings"
 	"sync"
 	"sync/atomic"
+	"time"
 
 	"github.com/protobom/protobom/pkg/formats"
 	"github.com/protobom/protobom/pkg/native"
@@ -67,10 +69,13 @@ func (f *fakeUnser) Unserialize(_ io.Reader, _ *native.UnserializeOptions, _ int
 type fakeSer struct{ id string }
 
 func (f *fakeSer) Serialize(*sbom.Document, *native.SerializeOptions, interface{}) (interface{}, error) {
+	runtime.Gosched() // widen the window between the two halves of a write
 	return f.id, nil
 }
+
+// the rendered bytes name the driver that serialized AND the driver that rendered: one write is served by one driver
 func (f *fakeSer) Render(doc interface{}, w io.Writer, _ *native.RenderOptions, _ interface{}) error {
-	_, err := io.WriteString(w, doc.(string))
+	_, err := io.WriteString(w, doc.(string)+"|"+f.id)
 	return err
 }
 
@@ -179,6 +184,9 @@ func concChild(args []string) error {
 					c.Op = "WUnregister"
 				case 9:
 					c.Op = "WGet"
+					if r.Intn(2) == 0 {
+						c.Op = "WWrite"
+					}
 				case 10:
 					c.Op = "Sniff"
 				default:
@@ -238,6 +246,15 @@ func concChild(args []string) error {
 						case "WUnregister":
 							writer.UnregisterSerializer(f)
 							c.Res = "ok"
+						case "WWrite":
+							var buf bytes.Buffer
+							if err := writer.New().WriteStreamWithOptions(tinyDoc(), nopCloser{&buf}, &writer.Options{Format: f}); err != nil {
+								c.Res = "err"
+							} else if parts := strings.SplitN(buf.String(), "|", 2); len(parts) == 2 && parts[0] == parts[1] {
+								c.Res = parts[0]
+							} else {
+								c.Res = "mixed:" + buf.String()
+							}
 						case "WGet":
 							s, err := writer.GetFormatSerializer(f)
 							switch {
@@ -455,7 +472,20 @@ func concRun(args []string) error {
 	cmd.Env = append(os.Environ(), "GORACE=halt_on_error=0 exitcode=0")
 	var stderr bytes.Buffer
 	cmd.Stderr = &stderr
-	runErr := cmd.Run()
+	// a call that never returns (a deadlock between a lookup and a registration, say) is an outcome, not a reason to wait:
+	// the child gets a generous deadline and is killed after it
+	runErr := cmd.Start()
+	if runErr == nil {
+		done := make(chan error, 1)
+		go func() { done <- cmd.Wait() }()
+		select {
+		case runErr = <-done:
+		case <-time.After(240 * time.Second):
+			cmd.Process.Kill()
+			<-done
+			runErr = errors.New("hang: the concurrent calls did not all return within 240 s")
+		}
+	}
 	w, err := newNDWriter(*out)
 	if err != nil {
 		return err
